@@ -512,11 +512,15 @@ def main(argv):
                 regress_stats.evaluations += 1
                 violations.append((os.path.relpath(path, VERIF), d))
     for path, f in sorted(kf_witness.items()):
+        prev = os.environ.get('VERIF_NO_SUPPRESS')
         os.environ['VERIF_NO_SUPPRESS'] = '1'
         try:
             ok, d, rec = replay_file(prop_id, path)
         finally:
-            del os.environ['VERIF_NO_SUPPRESS']
+            if prev is None:
+                del os.environ['VERIF_NO_SUPPRESS']
+            else:
+                os.environ['VERIF_NO_SUPPRESS'] = prev
         regress_stats.evaluations += 1
         if not ok and d['kind'] == 'violation':
             known_lines.append(f'KNOWN-FINDING: property={prop_id} {f["what"]}')
